@@ -162,6 +162,8 @@ def obstacle(o):
     d["signal_series"] = None if o.signal_series is None else [signal(s) for s in o.signal_series]
     if o.obstacle_role == ObstacleRole.DYNAMIC:
         d["prediction"] = prediction(o.prediction)
+        if getattr(o, "history", None):
+            d["history"] = [state(s) for s in o.history]       # earlier initial states (same frame as everything else)
     return d
 
 
